@@ -221,3 +221,37 @@ Proof. vm_compute. reflexivity. Qed.
 Example timer_select_race :
   tm_delivered (tm_run [TRegister 1 0; TFire 0; TCheck 0; TRegister 1 1; TDeliver 0]) = [(0%nat, 1, 0)].
 Proof. vm_compute. reflexivity. Qed.
+
+(* ---- the trigger as its user sees it (tm_register / tm_stop / tm_settle, engine `trigger`) ---- *)
+Lemma nth_error_app_len {A} (l : list A) x : nth_error (l ++ [x]) (length l) = Some x.
+Proof. induction l; cbn; auto. Qed.
+Lemma upd_app_len {A} (l : list A) x f : upd (l ++ [x]) (length l) f = l ++ [f x].
+Proof. induction l; cbn; [reflexivity|]. rewrite IHl. reflexivity. Qed.
+
+(* a registration that really arms (handler cleared or another pair), left alone until time passes, delivers its pair -
+   in particular after Stop the same pair can be armed again *)
+Theorem armed_then_settled_delivers s h v :
+  (tm_handler s && N.eqb (tm_v s) v && N.eqb (tm_h s) h = false) ->
+  exists i, tm_delivered (tm_settle (tm_register h v s)) = (i, h, v) :: tm_delivered (tm_stop s).
+Proof.
+  intro Hn. unfold tm_register. rewrite Hn. set (s1 := tm_stop s).
+  unfold tm_settle. cbn [tm_cur tm_insts]. rewrite nth_error_app_len. cbn [ti_phase].
+  exists (length (tm_insts s1)).
+  unfold tm_step at 3. cbn [tm_insts]. rewrite nth_error_app_len. cbn [ti_phase]. cbn [tm_handler tm_h tm_v tm_cur tm_insts tm_delivered].
+  rewrite upd_app_len.
+  unfold tm_step at 2. cbn [tm_insts]. rewrite nth_error_app_len. cbn [set_phase ti_phase ti_cancelled ti_h ti_v ti_sent].
+  cbn [tm_handler tm_h tm_v tm_cur tm_insts tm_delivered]. rewrite upd_app_len.
+  unfold tm_step. cbn [tm_insts]. rewrite nth_error_app_len. cbn [set_phase ti_phase ti_cancelled ti_h ti_v ti_sent tm_delivered].
+  reflexivity.
+Qed.
+
+Corollary rearm_after_stop_delivers s h v :
+  exists i, tm_delivered (tm_settle (tm_register h v (tm_stop s))) = (i, h, v) :: tm_delivered (tm_stop s).
+Proof.
+  assert (E : tm_stop (tm_stop s) = tm_stop s).
+  { unfold tm_stop at 1. assert (C : tm_cur (tm_stop s) = None) by (unfold tm_stop; destruct (tm_cur s); reflexivity).
+    rewrite C. unfold tm_stop; destruct (tm_cur s); reflexivity. }
+  destruct (armed_then_settled_delivers (tm_stop s) h v) as (i & Hi).
+  - assert (Hh : tm_handler (tm_stop s) = false) by (unfold tm_stop; destruct (tm_cur s); reflexivity). rewrite Hh. reflexivity.
+  - exists i. rewrite Hi, E. reflexivity.
+Qed.
